@@ -401,3 +401,47 @@ func TestVerifC14_PreviewTempFileAtExit(t *testing.T) {
 		c14Hygiene(t, s, history, code, false, false)
 	})
 }
+
+// Histories that crashed fzf before a repair (KNOWN_FINDINGS.txt "fixed:" lines);
+// they bypass the generator.
+func TestVerifC14_Regress(t *testing.T) {
+	type script struct {
+		name  string
+		args  []string
+		input string
+		w, h  int
+		posts []string
+	}
+	scripts := []script{
+		{"offset-up-page-down-reverse", []string{"--read0", "--layout=reverse"}, "a\x00b\x00", 80, 24, []string{"offset-up+page-down"}},
+		{"offset-down-page-up-default", []string{"--gap"}, "a\nb\n", 80, 24, []string{"offset-down+page-up"}},
+		{"offset-up-page-down-empty", []string{"--wrap", "--layout=reverse-list"}, "", 40, 10, []string{"offset-up+page-down", "offset-down+page-up"}},
+		{"offset-down-half-page", []string{"--read0", "--layout=reverse"}, "a\nb\x00c\x00", 30, 6, []string{"offset-up+half-page-down", "offset-up+offset-up+page-down", "offset-down+offset-down+half-page-up"}},
+	}
+	rapid.Check(t, func(t *rapid.T) {
+		sc := scripts[rapid.IntRange(0, len(scripts)-1).Draw(t, "script")]
+		s := StartSession(t, SessionCfg{Args: sc.args, Input: []byte(sc.input), Width: sc.w, Height: sc.h})
+		defer s.Close()
+		history := []string{fmt.Sprintf("fzf %q input %q (%dx%d)", sc.args, sc.input, sc.w, sc.h)}
+		if _, ok := s.WaitFor(10, func(st *Status) bool { return !st.Reading }); !ok {
+			infra(t, "did not settle")
+		}
+		for _, p := range sc.posts {
+			s.Post(p)
+			history = append(history, "POST "+p)
+			if _, ok := s.WaitFor(10, func(st *Status) bool { return true }); !ok {
+				if pt := s.panicText(); pt != "" {
+					t.Fatalf("fzf crashed after %s\nhistory:\n  %s\n%s", p, strings.Join(history, "\n  "), pt)
+				}
+				t.Fatalf("fzf stopped answering after %s\nhistory:\n  %s", p, strings.Join(history, "\n  "))
+			}
+		}
+		s.Post("abort")
+		code, ok := s.WaitExit(20 * time.Second)
+		if !ok {
+			t.Fatalf("fzf did not exit: %v", history)
+		}
+		vstat.Case("C14/regress", sc.name, true, "script="+sc.name)
+		c14Hygiene(t, s, history, code, false, false)
+	})
+}
